@@ -21,7 +21,7 @@ From Coq Require Import ZArith.
 From V Require Import Base.Res Sched.LedgerModel Sched.StmtModel Sched.GangModel.
 Open Scope Z_scope.
 
-Inductive pkind := KGang | KPrio | KConf | KProp.
+Inductive pkind := KGang | KPrio | KConf | KProp | KCap.
 Global Instance pkind_eq_dec : EqDecision pkind.
 Proof. solve_decision. Defined.
 
@@ -34,8 +34,12 @@ Record plug := mkPlug { p_kind : pkind; p_pre : bool; p_rec : bool }.
      qx_des_dim  for  allocated+req LessEqualWithDimension deserved   (floor)
      qx_des_hi   for  allocated.LessEqual(deserved)                   (reclaimableFn)
      qx_des_lo   for  deserved.LessEqual(allocated)                   (overusedFn) *)
+(* capacity (flat queues): deserved, guarantee and realCapability of the plugin's queue record are
+   sums / minima / maxima of Quantities, hence on the grid: they are handed over exactly *)
 Record qx := mkQx { qx_open : bool; qx_reclaimable : bool; qx_known : bool;
-                    qx_des_dim : res; qx_des_hi : res; qx_des_lo : res }.
+                    qx_des_dim : res; qx_des_hi : res; qx_des_lo : res;
+                    qx_cap_known : bool;          (* capacity holds a record for the queue *)
+                    qx_cap_des : res; qx_cap_guar : res; qx_cap_real : res }.
 
 Record env := mkEnv {
   e_tiers : list (list plug);
@@ -45,7 +49,16 @@ Record env := mkEnv {
   e_queues : gmap positive qx;
   e_faults : list (positive * positive);   (* (task, node): an allocate event handler reports Event.Err
                                               when this task is placed on this node (Statement.Pipeline fails) *)
+  e_qorder : list positive;         (* the order in which the capacity plugin's own victims queue
+                                       (ssn.BuildVictimsPriorityQueue inside its ReclaimableFn) pops the
+                                       candidates of the current vote; an oracle, installed per node attempt *)
 }.
+
+Definition with_qorder (E : env) (qo : list positive) : env :=
+  mkEnv (e_tiers E) (e_jprio E) (e_jpending E) (e_critical E) (e_queues E) (e_faults E) qo.
+
+Definition find_task (l : list task) (i : positive) : option task :=
+  match filter (fun c => bool_decide (t_id c = i) = true) l with c :: _ => Some c | [] => None end.
 
 Inductive akind := AInter | AIntra | AReclaim.
 Global Instance akind_eq_dec : EqDecision akind.
@@ -126,6 +139,53 @@ Fixpoint prop_go (s : sess) (al : gmap positive res) (l : list task) : list task
   end.
 Definition prop_vote (s : sess) (l : list task) : list task := prop_go s ∅ l.
 
+(* api.Intersection(r1, r2) non-empty: a resource name that both vectors hold with at least
+   minResource; [noign]: after FilteredIgnoredScalarResources (the "pods" name dropped) *)
+Definition intersects (noign : bool) (r1 r2 : res) : bool :=
+  match names_of eps r1, names_of eps r2 with
+  | (c1, m1, k1), (c2, m2, k2) =>
+    (c1 && c2) || (m1 && m2) ||
+    existsb (fun k => negb (noign && ignored k) && bool_decide (k ∈ k2)) k1
+  end.
+
+(* capacity.go ReclaimableFn 459-603 on flat queues (ancestorReclaimLevel = 0).  The candidates are
+   visited in the pop order of the plugin's own victims queue.  Each victim is paired with the
+   running allocation of its queue at the moment it was taken. *)
+Fixpoint cap_go_tr (s : sess) (p : task) (al : gmap positive res) (l : list task) : list (task * res) :=
+  match l with
+  | [] => []
+  | c :: r =>
+    match jobs s !! t_job c with
+    | None => cap_go_tr s p al r
+    | Some j =>
+      match e_queues E !! j_queue j with
+      | None => cap_go_tr s p al r
+      | Some q =>
+        if negb (qx_cap_known q) then cap_go_tr s p al r else
+        (* shouldSkipReclaimee *)
+        if negb (intersects true (t_req c) (t_init p)) then cap_go_tr s p al r else
+        let a := default (share_of s (j_queue j)) (al !! j_queue j) in
+        (* checkGuaranteeConstraint: guarantee <= allocated - reclaimee *)
+        if negb (less_equal eps (qx_cap_guar q) (sub a (t_req c)) DZero) then cap_go_tr s p (<[j_queue j := a]> al) r else
+        (* isImmediateVictim || checkDeservedExceedance (GreaterPartlyWithRelevantDimensions) *)
+        if negb (intersects false (t_req c) (qx_cap_des q)) || gp_rel eps a (qx_cap_des q) (t_req c)
+        then (c, a) :: cap_go_tr s p (<[j_queue j := sub a (t_req c)]> al) r
+        else cap_go_tr s p (<[j_queue j := a]> al) r
+      end
+    end
+  end.
+Definition cap_go (s : sess) (p : task) (al : gmap positive res) (l : list task) : list task :=
+  map fst (cap_go_tr s p al l).
+
+(* the reclaimer's job and queue record must exist, else (nil, Reject): an empty vote *)
+Definition cap_reclaimer_ok (s : sess) (p : task) : bool :=
+  match jobs s !! t_job p with
+  | Some j => match e_queues E !! j_queue j with Some q => qx_cap_known q | None => false end
+  | None => false
+  end.
+Definition cap_vote (s : sess) (p : task) (l : list task) : list task :=
+  if cap_reclaimer_ok s p then cap_go s p ∅ (omap (find_task l) (e_qorder E)) else [].
+
 (* which function a plugin registered for the action, and its answer *)
 Definition vote_of (k : akind) (s : sess) (p : task) (l : list task) (pk : pkind) : option (list task) :=
   match pk with
@@ -133,6 +193,7 @@ Definition vote_of (k : akind) (s : sess) (p : task) (l : list task) (pk : pkind
   | KConf => Some (conf_vote l)
   | KPrio => if is_reclaim k then None else Some (prio_vote s p l)
   | KProp => if is_reclaim k then Some (prop_vote s l) else None
+  | KCap => if is_reclaim k then Some (cap_vote s p l) else None
   end.
 
 Definition uid_of (t : task) : Z := Zpos (t_id t).
@@ -188,12 +249,27 @@ Definition node_cands (k : akind) (s : sess) (p : task) (pq : positive) (n : nod
 (* ------------------------------------------------------------------ *)
 (* queue gates (proportion) *)
 
-(* queueAllocatable(queue, [t]) : state Open and allocated + req <= deserved on the dimensions of req *)
+(* proportion queueAllocatable(queue, [t]) : state Open and allocated + req <= deserved on the dimensions of req;
+   capacity AllocatableFn (flat, no reserved tasks, no DRA): Open and allocated + req <= realCapability *)
 Definition queue_allocatable (s : sess) (q : positive) (t : task) : bool :=
-  if negb (has_plugin KProp) then true else
   match e_queues E !! q with
   | None => true
-  | Some x => qx_open x && le_dim (add (share_of s q) (t_req t)) (qx_des_dim x) (t_req t)
+  | Some x =>
+    (if has_plugin KProp then qx_open x && le_dim (add (share_of s q) (t_req t)) (qx_des_dim x) (t_req t) else true) &&
+    (if has_plugin KCap then qx_open x && le_dim (add (share_of s q) (t_req t)) (qx_cap_real x) (t_req t) else true)
+  end.
+
+(* ssn.Preemptive(queue, [t]): proportion = queueAllocatable; capacity PreemptiveFn 648-715 (flat): Open,
+   futureUsed <= realCapability on the requested dimensions, and futureUsed <= deserved on SOME requested
+   dimension that is not empty on both sides (LessEqualPartlyWithDimensionZeroFiltered) *)
+Definition queue_preemptive (s : sess) (q : positive) (t : task) : bool :=
+  match e_queues E !! q with
+  | None => true
+  | Some x =>
+    let fu := add (share_of s q) (t_req t) in
+    (if has_plugin KProp then qx_open x && le_dim fu (qx_des_dim x) (t_req t) else true) &&
+    (if has_plugin KCap then qx_open x && le_dim fu (qx_cap_real x) (t_req t) && lep_zf eps fu (qx_cap_des x) (t_req t)
+     else true)
   end.
 
 (* overusedFn: deserved.LessEqual(allocated, Zero) *)
@@ -224,6 +300,12 @@ Definition pipelined_layout (s : sess) (j : job) : layout Z :=
     end)) (e_tiers E).
 Definition job_pipelined_now (s : sess) (j : job) : bool := vote_tiers (pipelined_layout s j).
 
+End WithEps.
+
+Section Actions.
+Variable eps : Z.
+Variable E : env.
+
 (* ------------------------------------------------------------------ *)
 (* one node attempt *)
 
@@ -232,12 +314,13 @@ Definition nsid : positive := 2%positive.     (* the per-node statement *)
 
 (* a node attempt as the oracle describes it: the node, the order in which node.Tasks was
    enumerated (candidates only), the order in which the victims queue popped *)
-Record attempt := mkAtt { at_node : positive; at_cands : list positive; at_order : list positive }.
+Record attempt := mkAtt { at_node : positive; at_cands : list positive; at_order : list positive;
+                          at_qorder : list positive }.   (* pop order of the capacity plugin's own queue *)
 
 (* what an attempt did (ghost record for the theorems; also used by nothing else) *)
 Record arec := mkRec {
   a_kind : akind; a_pre : sess; a_task : task; a_queue : positive; a_node : positive;
-  a_cands : list task; a_evicted : list task; a_ok : bool }.
+  a_cands : list task; a_qorder : list positive; a_evicted : list task; a_ok : bool }.
 
 (* verdict codes *)
 Definition V_OK := 0.
@@ -267,10 +350,7 @@ Definition fits_node (s : sess) (p : task) (nid : positive) : bool :=
 
 (* preemptorFitsOnNode (no predicate plugins) *)
 Definition preemptor_fits (s : sess) (pq : positive) (p : task) (nid : positive) : bool :=
-  queue_allocatable s pq p && fits_node s p nid.
-
-Definition find_task (l : list task) (i : positive) : option task :=
-  match filter (fun c => bool_decide (t_id c = i) = true) l with c :: _ => Some c | [] => None end.
+  queue_allocatable E s pq p && fits_node s p nid.
 
 (* preempt.go 382-392: pop until the preemptor fits.  [vs]: victims not yet popped *)
 Fixpoint evict_loop_pre (s : sess) (pq : positive) (p : task) (nid : positive)
@@ -313,18 +393,20 @@ Definition run_attempt (k : akind) (s : sess) (p : task) (pq : positive) (a : at
   match nodes s !! at_node a with
   | None => (s, false, V_NO_NODE, [])
   | Some n =>
-    let cset := node_cands k s p pq n in
-    if negb (same_ids cset (at_cands a) && bool_decide (NoDup (at_cands a))) then (s, false, V_CANDS, []) else
+    let cset := node_cands E k s p pq n in
+    if negb (same_ids cset (at_cands a) && bool_decide (NoDup (at_cands a)) &&
+             (negb (has_plugin E KCap && is_reclaim k) || same_ids cset (at_qorder a))) then (s, false, V_CANDS, []) else
     (* the candidates in the order the code enumerated them *)
     let cands := omap (find_task cset) (at_cands a) in
     if is_reclaim k && bool_decide (cands = []) then (s, false, V_NO_CANDS, []) else
-    let vs := victims k s p cands in
+    (* the vote, with the capacity plugin's pop order of these candidates installed *)
+    let vs := victims eps (with_qorder E (at_qorder a)) k s p cands in
     if negb (less_equal eps (t_init p) (sum_reqs (future_idle n) vs) DZero) then (s, false, V_VALIDATE, []) else
     let '(s1, done, fits, v) :=
       if is_reclaim k then
         let '(s1, done, avail, v) := evict_loop_rec s p (future_idle n) vs (at_order a) [] in
         (* reclaim.go 247-259: enough room by the running sum, and the queue still admits the task *)
-        (s1, done, less_equal eps (t_init p) avail DZero && queue_allocatable s1 pq p, v)
+        (s1, done, less_equal eps (t_init p) avail DZero && queue_allocatable E s1 pq p, v)
       else
         let '(s1, done, v) := evict_loop_pre s pq p (at_node a) vs (at_order a) [] in
         (s1, done, preemptor_fits s1 pq p (at_node a), v) in
@@ -335,10 +417,10 @@ Definition run_attempt (k : akind) (s : sess) (p : task) (pq : positive) (a : at
       let '(s2, r) := stmt_pipeline eps (set_fault s1 (t_id p) (at_node a)) nsid (t_id p) (at_node a) in
       match r with
       | ROk => (stmt_merge s2 jsid nsid, true, V_OK,
-                [mkRec k s p pq (at_node a) cands done true])
-      | _ => (stmt_discard eps s2 nsid, false, V_OK, [mkRec k s p pq (at_node a) cands done false])
+                [mkRec k s p pq (at_node a) cands (at_qorder a) done true])
+      | _ => (stmt_discard eps s2 nsid, false, V_OK, [mkRec k s p pq (at_node a) cands (at_qorder a) done false])
       end
-    else (stmt_discard eps s1 nsid, false, V_OK, [mkRec k s p pq (at_node a) cands done false])
+    else (stmt_discard eps s1 nsid, false, V_OK, [mkRec k s p pq (at_node a) cands (at_qorder a) done false])
   end.
 
 (* the node loop of normalPreempt / reclaimForTask: stop at the first assigned attempt *)
@@ -365,9 +447,9 @@ Fixpoint run_tasks (k : akind) (s : sess) (jid : positive) (l : list (positive *
   | (tid, atts) :: r =>
     match jobs s !! jid, heap s !! tid with
     | Some j, Some p =>
-      if negb (job_starving_now s j) then (s, V_NOT_STARVING, []) else
+      if negb (job_starving_now E s j) then (s, V_NOT_STARVING, []) else
       if negb (bool_decide (t_status p = Pending) && bool_decide (t_job p = jid)) then (s, V_NOT_PENDING, []) else
-      if is_reclaim k && negb (queue_allocatable s (j_queue j) p) then (s, V_NOT_PREEMPTIVE, []) else
+      if is_reclaim k && negb (queue_preemptive eps E s (j_queue j) p) then (s, V_NOT_PREEMPTIVE, []) else
       let '(s1, _, v, lg) := run_attempts k s tid (j_queue j) atts in
       if negb (v =? V_OK) then (s1, v, lg) else
       let '(s2, v2, lg2) := run_tasks k s1 jid r in (s2, v2, lg ++ lg2)
@@ -391,7 +473,7 @@ Definition job_gate (s : sess) (jid : positive) : option job :=
 (* commit iff JobPipelined, else discard; the records of a discarded statement are dropped *)
 Definition close_job (s : sess) (jid : positive) (lg : list arec) : sess * list arec :=
   match jobs s !! jid with
-  | Some j => if job_pipelined_now s j then (stmt_commit eps s jsid, lg) else (stmt_discard eps s jsid, [])
+  | Some j => if job_pipelined_now E s j then (stmt_commit eps s jsid, lg) else (stmt_discard eps s jsid, [])
   | None => (stmt_discard eps s jsid, [])
   end.
 
@@ -409,7 +491,7 @@ Definition step (s : sess) (c : choice) : sess * Z * list arec :=
     match job_gate s jid with
     | None => (s, V_JOB, [])
     | Some j =>
-      if first && queue_overused s (j_queue j) then (s, V_OVERUSED, []) else
+      if first && queue_overused eps E s (j_queue j) then (s, V_OVERUSED, []) else
       let '(s1, v, lg) := run_tasks AReclaim s jid tasks in
       let '(s2, lg2) := close_job s1 jid (filter a_ok lg) in (s2, v, lg2)
     end
@@ -430,4 +512,4 @@ Fixpoint run (s : sess) (cs : list choice) : sess * list arec :=
   | c :: r => let '(s1, _, lg) := step s c in let '(s2, lg2) := run s1 r in (s2, lg ++ lg2)
   end.
 
-End WithEps.
+End Actions.
